@@ -100,6 +100,12 @@ def _root(q):
             ax = [c > Fr(6, 10), c < Fr(65, 100), 8 * c * c * c + 4 * c * c - 4 * c - 1 == 0, s > 0, s * s == 1 - c * c]
         elif q == 9:
             ax = [c > Fr(76, 100), c < Fr(77, 100), 8 * c * c * c - 6 * c + 1 == 0, s > 0, s * s == 1 - c * c]
+        elif q & (q - 1):
+            # no small minimal polynomial at hand and not a power of two: the root of unity is taken in floating point
+            # (as NumPy's transform does); identities that rely on exact cancellation are then outside (tolerance only)
+            c, s = Fr(cf), Fr(sf)
+            ax = []
+            St.notes.add("DFT lengths with a prime factor > 7 (other than handled cases): twiddle factors are the double-precision cos/sin values")
         else:
             w = Sym(c, s)
             wq = w._ipow(q)
@@ -116,6 +122,10 @@ def _root(q):
 _TW = {}
 
 
+def _float_root(q):
+    return q not in (1, 2, 3, 4, 5, 6, 7, 8, 9, 10, 12) and bool(q & (q - 1))
+
+
 def twiddle(N, k):
     """exp(+2 pi i k / N) as a Sym"""
     k %= N
@@ -128,6 +138,9 @@ def twiddle(N, k):
         out = Sym(1)
     elif 2 * p > q:
         out = twiddle(q, q - p).conjugate()
+    elif _float_root(q):
+        _root(q)          # (records the note)
+        out = Sym(Fr(math.cos(2 * math.pi * p / q)), Fr(math.sin(2 * math.pi * p / q)))
     else:
         c, s = _root(q)
         out = Sym(c, s)._ipow(p)
@@ -239,6 +252,11 @@ class FFT:
         for ax, n in zip(axes[:-1], s[:-1]):
             out = dft_axis(out, ax, True, n)
         return FFT.irfft(out, s[-1], axes[-1])
+
+    @staticmethod
+    def next_fast_len(target, real=False):
+        import scipy.fft
+        return scipy.fft.next_fast_len(int(target), real=real)
 
     @staticmethod
     def rfftfreq(n, d=1.0):
@@ -707,6 +725,10 @@ class PoolStub:
 
     def map(self, fn, iterable, chunksize=None):
         items = list(iterable)
+        if chunksize is not None and int(chunksize) <= 0 and items:
+            # multiprocessing.pool: _get_tasks yields nothing for a chunk size of 0 and MapResult completes at once
+            PoolStub.executed.append(("map", []))
+            return [None] * len(items)
         order = self._order(len(items))
         res = [None] * len(items)
         for i in order:
@@ -786,6 +808,8 @@ class MathProxy:
                     return getattr(x, k)()
                 if k == "ceil":
                     return -((-x).floor())
+                if k == "isqrt":
+                    return core.sym_int(core.sym_sqrt(x))
                 if k == "fabs":
                     return abs(x)
                 if k == "hypot" and len(a) == 2:
@@ -942,8 +966,15 @@ class NP:
             return numpy.empty(_shape(shape), dtype=dt)
         return self._filled(shape, None, dtype)
 
-    def zeros_like(self, a, dtype=None):
-        return self._filled(numpy.shape(a), 0, dtype)
+    def zeros_like(self, a, dtype=None, order="K", subok=True, shape=None):
+        if dtype is None and isinstance(a, numpy.ndarray) and a.dtype != object:
+            dtype = a.dtype
+        return self._filled(numpy.shape(a) if shape is None else _shape(shape), 0, dtype)
+
+    def ones_like(self, a, dtype=None, order="K", subok=True, shape=None):
+        if dtype is None and isinstance(a, numpy.ndarray) and a.dtype != object:
+            dtype = a.dtype
+        return self._filled(numpy.shape(a) if shape is None else _shape(shape), 1, dtype)
 
     def identity(self, n, dtype=None):
         a = self._filled((n, n), 0)
@@ -1029,16 +1060,16 @@ class NP:
     float64 = None
 
     # ---- element-wise functions
-    def sqrt(self, x):
+    def sqrt(self, x, out=None, **kw):
         return _map(core.sym_sqrt, x)
 
-    def exp(self, x):
+    def exp(self, x, out=None, **kw):
         return _map(core.sym_exp, x)
 
-    def log10(self, x):
+    def log10(self, x, out=None, **kw):
         return _map(core.sym_log10, x)
 
-    def log(self, x):
+    def log(self, x, out=None, **kw):
         return _map(core.sym_log, x)
 
     def float_power(self, a, b):
@@ -1048,10 +1079,10 @@ class NP:
         a, b = obj(a), obj(b)
         return _map(core.sym_sqrt, a * a + b * b)
 
-    def cos(self, x):
+    def cos(self, x, out=None, **kw):
         return _map(lambda e: e.cos(), x)
 
-    def sin(self, x):
+    def sin(self, x, out=None, **kw):
         return _map(lambda e: e.sin(), x)
 
     def arctan2(self, y, x):
@@ -1066,18 +1097,18 @@ class NP:
             out[i] = Sym(math.atan2(float(a.re), float(b.re)))
         return out.view(SA) if out.ndim else out[()]
 
-    def abs(self, x):
+    def abs(self, x, out=None, **kw):
         return _map(abs, x)
     absolute = abs
 
-    def conjugate(self, x):
+    def conjugate(self, x, out=None, **kw):
         return _map(lambda e: e.conjugate(), x)
     conj = conjugate
 
-    def real(self, x):
+    def real(self, x, out=None, **kw):
         return _map(lambda e: e.real, x)
 
-    def imag(self, x):
+    def imag(self, x, out=None, **kw):
         return _map(lambda e: e.imag, x)
 
     def round(self, x, decimals=0):
@@ -1089,10 +1120,10 @@ class NP:
     around = round
     rint = round
 
-    def floor(self, x):
+    def floor(self, x, out=None, **kw):
         return _map(lambda e: e.floor(), x)
 
-    def ceil(self, x):
+    def ceil(self, x, out=None, **kw):
         return _map(lambda e: -((-e).floor()), x)
 
     def where(self, cond, *args):
@@ -1177,6 +1208,31 @@ class NP:
 
     def isfinite(self, x):
         return numpy.ones(numpy.shape(x), dtype=bool) if numpy.shape(x) else True
+
+    def isclose(self, a, b, rtol=1e-05, atol=1e-08, equal_nan=False):
+        """|a - b| <= atol + rtol |b| element-wise (symbolic elements give symbolic truth values)"""
+        x, y = numpy.broadcast_arrays(numpy.asarray(a, dtype=object), numpy.asarray(b, dtype=object))
+        out = numpy.empty(x.shape, dtype=object)
+        for i in numpy.ndindex(*x.shape):
+            u, v = Sym.lift(x[i]), Sym.lift(y[i])
+            d, lim = abs(u - v), Sym.lift(atol) + Sym.lift(rtol) * abs(v)
+            if d.isconc() and lim.isconc():
+                out[i] = bool(d.re <= lim.re)
+            else:
+                out[i] = SymBool(z(d.re) <= z(lim.re))
+        return out if out.ndim else out[()]
+
+    def allclose(self, a, b, rtol=1e-05, atol=1e-08, equal_nan=False):
+        r = self.isclose(a, b, rtol, atol)
+        lits = []
+        for e in numpy.asarray(r, dtype=object).flat:
+            if isinstance(e, SymBool):
+                lits.append(e.e)
+            elif not e:
+                return False
+        if not lits:
+            return True
+        return bool(SymBool(z3.And(*lits) if len(lits) > 1 else lits[0]))
 
     def array_equal(self, a1, a2, equal_nan=False):
         """one decision for the whole comparison (not one fork per element)"""
